@@ -1,3 +1,9 @@
 // Pasted into protocols/rendezvous/src/server.rs (mod verif) under cfg(kani).
 #[allow(unused_imports)]
 use super::*;
+
+pub(crate) mod c51 {
+    #[allow(unused_imports)]
+    use super::super::*;
+    include!(concat!(env!("LIBP2P_VERIF"), "/units/C51/registrations.rs"));
+}
